@@ -39,9 +39,7 @@ func loadWorld() *World {
 		funcs: map[string]*ssa.Function{}, loopsOf: map[*ssa.Function]map[*ssa.BasicBlock]*Loop{},
 		globalMap: map[*ssa.Global]*SymMap{}}
 	for fn := range ssautil.AllFunctions(prog) {
-		if fn.Pkg == w.pkg || (fn.Parent() != nil && fn.Parent().Pkg == w.pkg) {
-			w.funcs[shortFuncName(fn.String())] = fn
-		}
+		w.funcs[shortFuncName(fn.String())] = fn
 	}
 	if u := os.Getenv("MQVC_UNROLL"); u != "" {
 		fmt.Sscan(u, &w.unroll)
@@ -111,10 +109,12 @@ func (w *World) buildVC(fn *ssa.Function) *VC {
 	}
 	w.globalAssumptions(vc, fr)
 	if c := fr.contract; c != nil {
+		vc.curLets = c.Lets
 		for _, r := range c.Requires {
 			vc.assume(fr.evalBool(r.Expr, fr.params, st, st))
 		}
 	}
+	vc.curLets = nil
 	fr.entry = st.clone()
 	if len(fn.Blocks) == 0 {
 		vc.unsupported(fr, "function without body")
@@ -166,10 +166,28 @@ func (w *World) globalAssumptions(vc *VC, fr *Frame) {
 			vc.assume(eq(sel(vc.arr(fr.st, u8), intLit(data+int64(i))), bvLit(uint64(s[i]), 8)))
 		}
 	}
+	errGlobals := []*ssa.Global{}
 	if g, ok := w.pkg.Members["ErrMissingData"].(*ssa.Global); ok {
+		errGlobals = append(errGlobals, g)
+	}
+	for _, p := range w.prog.AllPackages() {
+		if p.Pkg.Path() == "io" {
+			for _, n := range []string{"EOF", "ErrUnexpectedEOF", "ErrShortBuffer"} {
+				if g, ok := p.Members[n].(*ssa.Global); ok {
+					errGlobals = append(errGlobals, g)
+				}
+			}
+		}
+	}
+	var prev []*Val
+	for _, g := range errGlobals {
 		v := fr.load(intLit(w.globalAddr(g)), elemOf(g.Type()))
 		vc.assume(gt(v.L[0], "0"))
 		vc.assume(and(le("0", v.L[1]), lt(v.L[1], "wm0")))
+		for _, p := range prev {
+			vc.assume(neq(v.L[1], p.L[1])) // distinct error values
+		}
+		prev = append(prev, v)
 	}
 }
 
